@@ -4,7 +4,7 @@
    stage 2 enter through the hook hypothesis [hook_preserves c19_rel hook] ("if [run] only appends
    requests and only pushes peers other than the current one, so does the stream instruction built
    on it"). *)
-From Aqua Require Import Base Json Air Trace Handler Values Scalars Lens Exec RunExec ExecStreams CallSpec ExecInv ExecStreamsInv C19Proofs.
+From Aqua Require Import Base Json Air Trace Handler Values Scalars Lens Exec RunExec ExecStreams CallSpec C19Canon ExecInv ExecStreamsInv C19Proofs C19CanonProofs.
 Open Scope N_scope.
 Open Scope list_scope.
 
@@ -44,6 +44,13 @@ Proof. exact run2_next_peers. Qed.
    not the current peer) to the next peers, and then p is the current peer *)
 Theorem C19_marked_forwarded : C19_marked_forwarded_stmt.
 Proof. exact C19_marked_forwarded_proof. Qed.
+
+(* the canon half (canon, canon of a stream map, canon of a stream map into a scalar): a canon never
+   touches the call bookkeeping; it pushes at most the designated peer, which is not the current one,
+   exactly when it newly marks the canon as sent by the current peer; and a canon result that is not
+   the one found in the data is made only by the peer the canon is designated to *)
+Theorem C19_canon : C19_canon_stmt.
+Proof. exact C19_canon_proof. Qed.
 
 (* the exact effect of one resolved call on requests / request counter / next peers / supplied
    results / run parameters and on the result trace *)
@@ -99,6 +106,18 @@ Example C19_ex_taken_over :
                      ri_results := [] |}) = Some ([SCall (RequestSentBy (SPeerCall "A" 1))], [], [(1, "f")]).
 Proof. vm_compute. reflexivity. Qed.
 
+(* a canon designated to B, run at A: marked as sent by A, forwarded to B; designated to A: made at A *)
+Definition ex_canon (peer : string) : instr :=
+  ICanon "canon" (PLiteral peer) {| v_name := "$stream"; v_pos := 0 |} {| v_name := "#canon"; v_pos := 0 |}.
+Example C19_ex_canon_remote :
+  ex_obs (run2 10 (ex_input (ex_canon "B"))) = Some ([SCanon (CanonRequestSentBy "A")], ["B"], []).
+Proof. vm_compute. reflexivity. Qed.
+Example C19_ex_canon_local :
+  ex_obs (run2 10 (ex_input (ex_canon "A"))) =
+  Some ([SCanon (CanonExecuted (CCanonResult (CTetraplet {| tp_peer := "A"; tp_service := ""; tp_function := ""; tp_lens := "" |}) []))],
+        [], []).
+Proof. vm_compute. reflexivity. Qed.
+
 (* the relation of theorem 2 holds between two different contexts, and fails when the current peer is pushed *)
 Example C19_ex_rel_nontrivial :
   let x := initial_ctx (ex_input INull) in
@@ -116,5 +135,6 @@ Print Assumptions C19_next_peers_not_self_run1.
 Print Assumptions C19_exec2.
 Print Assumptions C19_next_peers_not_self_run2.
 Print Assumptions C19_marked_forwarded.
+Print Assumptions C19_canon.
 Print Assumptions C19_call_step.
 Print Assumptions C19_source_tie.
